@@ -23,6 +23,12 @@ ROWS = [{"key": "TemporalErrors." + k, "code": "TEMPORAL_TAG_ERROR"} for k in (
     "ONSET_TOO_MANY_DEFS", "ONSET_WRONG_NUMBER_GROUPS")]
 
 
+def _is_original_index(y):
+    """`row.original_index`, or the column itself: `df["original_index"]` / `df.original_index`"""
+    return (isinstance(y, ast.Attribute) and y.attr == "original_index") or (
+        isinstance(y, ast.Subscript) and isinstance(y.slice, ast.Constant) and y.slice.value == "original_index")
+
+
 def run(ctx):
     prog, cg = ctx.prog, ctx.cg
     ctx.rule("R10.1", "all accessors of the open-scope table / used-name set case-fold the key identically")
@@ -141,7 +147,7 @@ def run(ctx):
                     "invalid_original_rows" in norm(x.comparators[0]):
                 from sa.dataflow import ReachingDefs as _RD105, depends_on as _dep105
                 by_index = (isinstance(x.left, ast.Attribute) and x.left.attr == "original_index") or _dep105(
-                    _RD105(roc2), x.left, x, lambda y: isinstance(y, ast.Attribute) and y.attr == "original_index")
+                    _RD105(roc2), x.left, x, _is_original_index)
                 ctx.check(by_index, "R10.5", roc2.qualname, x, loc(roc2, x),
                           "the failed-row skip tests `%s` instead of the row's original_index: a valid Onset row is dropped (its "
                           "Offset is then reported as unmatched) or a broken row is not skipped" % norm(x.left),
@@ -157,7 +163,9 @@ def run(ctx):
     for f in prog.find_module("models.df_util").functions.values():
         for c in walk_no_nested(f.node):
             if isinstance(c, ast.Call) and isinstance(c.func, ast.Attribute) and c.func.attr in ("sort_values", "argsort", "sort_index") \
-                    and "onset" in norm(c).lower():
+                    and ("onset" in norm(c).lower() or "onset" in f.name.lower() or any(
+                        isinstance(prog.try_const(a_, f.module, f.cls), str) and "onset" in prog.try_const(a_, f.module, f.cls).lower()
+                        for a_ in list(c.args) + [k.value for k in c.keywords])):
                 n_sorts += 1
                 ctx.saw(f)
                 kw = {k.arg: k.value for k in c.keywords if k.arg}
